@@ -617,14 +617,20 @@ class HttpStreamSession:
         )
         return _open_response_stream(resp.content, resp.status_code, self._ipc_validation)
 
+    def _cancelled_meanwhile(self) -> bool:
+        """Re-read the finished flag: ``cancel()`` may run while the iterator is suspended."""
+        return self._finished
+
     def __iter__(self) -> Iterator[AnnotatedBatch]:
         """Iterate over output batches from a producer stream.
 
         Yields pre-loaded batches from init, then follows continuation tokens.
         """
-        # Yield pre-loaded batches from init response
-        yield from self._pending_batches
-        self._pending_batches.clear()
+        # Yield pre-loaded batches from init response.  Popped one at a time so
+        # that a cancel() issued while the caller holds this iterator (which
+        # clears the list) stops the hand-over at once.
+        while self._pending_batches:
+            yield self._pending_batches.pop(0)
 
         if self._finished:
             return
@@ -637,6 +643,13 @@ class HttpStreamSession:
         try:
             reader = self._send_continuation(self._state_bytes)
             while True:
+                # cancel() may have run while this generator was suspended at a
+                # yield: a cancelled session must not hand out what is left of
+                # the current response, let alone follow its continuation token
+                # (that would make the server process the state again).
+                if self._cancelled_meanwhile():
+                    _drain_stream(reader)
+                    return
                 try:
                     batch, custom_metadata = reader.read_next_batch_with_custom_metadata()
                 except StopIteration:
@@ -775,6 +788,8 @@ class HttpStreamSession:
         ``cancel()``, the session is marked finished; further ``exchange()``
         or iteration raises ``RpcError``.
         """
+        # Batches pre-loaded from the init response are not handed out after a cancel.
+        self._pending_batches.clear()
         if self._finished or self._state_bytes is None:
             self._finished = True
             self._state_bytes = None
